@@ -62,7 +62,8 @@ def o_roundtrip(a):
     inrange = bool((f >= 0).all() and (f < 1).all() and (f1 >= 0).all() and (f1 < 1).all())
     off = float(numpy.abs(((f1 - f - 0.3 + 0.5) % 1.) - 0.5).max())
     # float64 resolution of the MET itself (3e-8 s at 1.5e8 s) limits any time-domain round trip: 16 ulp(t)·ν₀ cycles (measured ≤ 6)
-    env = 5e-12 * periods + 2e-7 + 16. * float(numpy.spacing(a['start'] + a['duration'])) * a['eph']['nu0']
+    # … and so does the float64 resolution of the absolute phase when the epoch is far from the window (phase ~ 1e9-1e12 cycles)
+    env = 5e-12 * periods + 2e-7 + 16. * float(numpy.spacing(a['start'] + a['duration'])) * a['eph']['nu0'] + 4. * float(numpy.spacing(numpy.abs(ph).max()))
     return err_cycles <= max(env, 1e-6) and inrange and off < 1e-6, dict(roundtrip_err_cycles=err_cycles, envelope=env, in_range=inrange, offset_err=off)
 
 
@@ -85,7 +86,7 @@ def o_rvs(a):
         bad.append('times outside the window: [%r, %r]' % (met.min() - a['start'], met.max() - a['start'] - a['duration']))
     f = eph.fold(met, a['start'])
     d = numpy.abs(((f - pp + 0.5) % 1.) - 0.5)
-    env = 5e-12 * periods + 2e-7 + 16. * float(numpy.spacing(a['start'] + a['duration'])) * a['eph']['nu0']
+    env = 5e-12 * periods + 2e-7 + 16. * float(numpy.spacing(a['start'] + a['duration'])) * a['eph']['nu0'] + 4. * float(numpy.spacing(abs(float(eph.met_to_phase(a['start'] + a['duration'])))))
     if d.max() > max(env, 1e-6):
         bad.append('fold(met) differs from the generated pulse phase by up to %.3g cycles (envelope %.3g)' % (d.max(), env))
     # the times follow the pulse profile: in free-running phase p = φ(t) − φ(start) ∈ [0, P] the cumulative is
